@@ -114,7 +114,11 @@ fn linearize_tree(tree: &SourceTree) -> Result<Vec<SourceFile<'_>>> {
     } else if let Some(root) = tree.sources.get_key_value(&PathBuf::from("")) {
         // if there is an empty path, that's the root
         root_path = root.0;
-    } else if let Some(root) = tree.sources.keys().find(path_starts_with_uppercase) {
+    } else if let Some(root) = (tree.sources.keys())
+        .filter(path_starts_with_uppercase)
+        // several candidates: the map has no order, take the first by path
+        .min()
+    {
         root_path = root;
     } else {
         if tree.sources.is_empty() {
